@@ -10,9 +10,13 @@ type DynamicFanOut[T any] struct {
 	input    <-chan T
 	inputCap int
 
-	closed  bool
+	closed bool
+	// mutex protects outputs; it is never held while sending
 	mutex   sync.Mutex
 	outputs map[int64]chan T
+	// sendMutex is held by run while one event is delivered to all outputs
+	// and by DespawnOutput while it closes the removed channel
+	sendMutex sync.Mutex
 }
 
 func NewDynamicFanOut[T any](input <-chan T) *DynamicFanOut[T] {
@@ -28,11 +32,17 @@ func NewDynamicFanOut[T any](input <-chan T) *DynamicFanOut[T] {
 
 func (f *DynamicFanOut[T]) run() {
 	for e := range f.input {
+		f.sendMutex.Lock()
 		f.mutex.Lock()
+		outputs := make([]chan T, 0, len(f.outputs))
 		for _, o := range f.outputs {
-			o <- e
+			outputs = append(outputs, o)
 		}
 		f.mutex.Unlock()
+		for _, o := range outputs {
+			o <- e
+		}
+		f.sendMutex.Unlock()
 	}
 	f.closed = true
 }
@@ -72,14 +82,23 @@ func (f *DynamicFanOut[T]) SpawnOutput() (int64, <-chan T, error) {
 // DespawnOutput removes output channel with given ID
 func (f *DynamicFanOut[T]) DespawnOutput(id int64) error {
 	f.mutex.Lock()
-	defer f.mutex.Unlock()
-
 	c, ok := f.outputs[id]
 	if !ok {
+		f.mutex.Unlock()
 		return fmt.Errorf("output id %d not found", id)
 	}
-	close(c)
 	delete(f.outputs, id)
+	f.mutex.Unlock()
+
+	// the consumer may have stopped reading: drain the channel so that a send
+	// already in progress completes, then close it once that delivery is over
+	go func() {
+		for range c {
+		}
+	}()
+	f.sendMutex.Lock()
+	close(c)
+	f.sendMutex.Unlock()
 
 	return nil
 }
